@@ -1,4 +1,67 @@
 ---------------------------- MODULE C07RepBson ----------------------------
-(* STUB - length-boundary inputs of Bson (see C07RepCbor.tla). *)
-BsonRepInputs == { <<0>> }
+(* Complete BSON inputs for MC_C07 in TokMode "rep".                        *)
+(*  (1) length boundaries: every length-carrying form of BSON (all are      *)
+(*      little-endian int32: string size, binary size, document size,       *)
+(*      array document size) at the byte boundaries of the size field       *)
+(*      (0, 1, 2, 127/128, 255/256/257, 1000) with exactly / one fewer /    *)
+(*      one more payload bytes or elements than declared; documents with    *)
+(*      DISTINCT keys; arrays with the keys "0", "1", ... (digit-count      *)
+(*      boundaries 9/10/11, 99/100/101), a skipped key, a repeated key;     *)
+(*      total document sizes 255/256/257, top-level and nested;             *)
+(*  (2) every type code 0..255 x six payload shapes, in a document and in   *)
+(*      an array;                                                           *)
+(*  (3) every strict prefix of every sample document of C07TokBson;         *)
+(*  (4) single-byte mutations of every sample document at every position    *)
+(*      (0, 1, 255, +1, -1, top bit flipped).                               *)
+(* Every input is below 1100 bytes.                                         *)
+EXTENDS Naturals, Sequences
+LOCAL INSTANCE C07TokBson
+LOCAL Rep(x, n) == [i \in 1..n |-> x]
+LOCAL LE4(n) == <<n % 256, (n \div 256) % 256, (n \div 65536) % 256, 0>>
+LOCAL Adj(n) == {n} \cup (IF n > 0 THEN {n - 1} ELSE {}) \cup {n + 1}
+LOCAL Counts == {0, 1, 2, 127, 128, 255, 256, 257, 1000}
+\* a document whose body (the e_list) is given, with the size field off by delta (a natural number added to sz - sub)
+LOCAL DocOf(body, add, sub) == LE4(4 + Len(body) + 1 + add - sub) \o body \o <<0>>
+LOCAL Doc0(body) == DocOf(body, 0, 0)
+
+\* {"a": string} : declared n content bytes (+1), actual k
+LOCAL StrDoc(n, k) == Doc0(<<2, 97, 0>> \o LE4(n + 1) \o Rep(97, k) \o <<0>>)
+\* {"a": binary subtype 0} : declared n, actual k
+LOCAL BinBody(n, k) == <<5, 97, 0>> \o LE4(n) \o <<0>> \o Rep(255, k)
+LOCAL BinDoc(n, k) == Doc0(BinBody(n, k))
+\* {"a": {"a": binary}} : nested document sizes
+LOCAL NestDoc(n, k) == Doc0(<<3, 97, 0>> \o Doc0(BinBody(n, k)))
+\* distinct two-character keys
+LOCAL Key(i) == <<64 + (i \div 60), 64 + (i % 60)>>
+LOCAL NullBody(n) == IF n = 0 THEN <<>> ELSE [i \in 1..(n * 4) |-> LET p == (i - 1) \div 4  q == (i - 1) % 4 IN
+                                                 IF q = 0 THEN 10 ELSE IF q = 3 THEN 0 ELSE Key(p)[q]]
+\* document of k null members, size field computed for n members
+LOCAL MapDoc(n, k) == LE4(4 + (4 * n) + 1) \o NullBody(k) \o <<0>>
+\* array body with the keys "0" .. "n-1" (real tuples)
+RECURSIVE DecStr(_), ArrBody(_)
+LOCAL DecStr(k) == IF k < 10 THEN <<48 + k>> ELSE Append(DecStr(k \div 10), 48 + (k % 10))
+LOCAL ArrBody(n) == IF n = 0 THEN <<>> ELSE ArrBody(n - 1) \o <<10>> \o DecStr(n - 1) \o <<0>>
+LOCAL ArrEl(k) == <<10>> \o DecStr(k) \o <<0>>
+\* {"a": [null x k]} with the array's size field computed for n elements
+LOCAL ArrDoc(n, k) == Doc0(<<4, 97, 0>> \o LE4(4 + Len(ArrBody(n)) + 1) \o ArrBody(k) \o <<0>>)
+LOCAL ArrCounts == {0, 1, 2, 9, 10, 11, 99, 100, 101}
+
+LOCAL Payloads == { <<>>, <<0>>, <<1, 0, 0, 0, 0>>, Rep(0, 8), Rep(0, 12), Rep(0, 16) }
+LOCAL Subst(d, k, x) == [j \in 1..Len(d) |-> IF j = k THEN x ELSE d[j]]
+
+BsonRepInputs ==
+  UNION { { StrDoc(n, k) : k \in Adj(n) } : n \in Counts } \cup
+  UNION { { BinDoc(n, k) : k \in Adj(n) } : n \in Counts \cup {241, 242, 243, 244, 245} } \cup                 \* 242 -> total size 255
+  UNION { { NestDoc(n, k) : k \in Adj(n) } : n \in {0, 233, 234, 235, 236, 237, 238, 239, 240, 241, 242} } \cup  \* inner 255 at 242, outer 255 at 234
+  UNION { { MapDoc(n, k) : k \in Adj(n) } : n \in {0, 1, 2, 15, 16, 62, 63, 64, 255, 256} } \cup
+  UNION { { ArrDoc(n, k) : k \in Adj(n) } : n \in ArrCounts } \cup
+  { Doc0(<<4, 97, 0>> \o Doc0(ArrBody(n) \o ArrEl(n + 1))) : n \in ArrCounts } \cup                           \* a skipped key
+  { Doc0(<<4, 97, 0>> \o Doc0(ArrBody(n + 1) \o ArrEl(n))) : n \in ArrCounts } \cup                           \* a repeated key
+  { Doc0(<<4, 97, 0>> \o Doc0(ArrEl(1) \o ArrEl(0))) } \cup                                                    \* keys out of order
+  { DocOf(NullBody(n), d, 0) : n \in {0, 1, 63}, d \in {1, 2, 251, 256} } \cup                                \* size field too large
+  { DocOf(NullBody(n), 0, d) : n \in {1, 63}, d \in {1, 2, 4} } \cup                                          \* size field too small
+  { Doc0(<<t, 97, 0>> \o p) : t \in 0..255, p \in Payloads } \cup
+  { Doc0(<<4, 97, 0>> \o Doc0(<<t, 48, 0>> \o p)) : t \in 0..255, p \in Payloads } \cup
+  UNION { { SubSeq(d, 1, k) : k \in 1..(Len(d) - 1) } : d \in BsonSampleDocs } \cup
+  UNION { UNION { { Subst(d, k, x) : x \in {0, 1, 255, (d[k] + 1) % 256, (d[k] + 255) % 256, (d[k] + 128) % 256} } : k \in 1..Len(d) } : d \in BsonSampleDocs }
 =============================================================================
